@@ -3,7 +3,7 @@
 //! Space. One generated catalog (zones `z.` and `nn.`) built so that the
 //! length of the complete (TCP) response sweeps one octet at a time across
 //! every limit value, in eight scenarios:
-//!   txt      one TXT RR whose RDATA length steps by one   (centres 512, 1000, 1232, 4096, 65535)
+//!   txt      one TXT RR whose RDATA length steps by one   (centres 512, 1000, 1232, 4096, [16384 thorough], 65535)
 //!   txt3     a TXT RRset of three RRs (no partial RRset)   (512, 1232)
 //!   cname    CNAME -> the txt ladder                       (512, 1232)
 //!   any      QTYPE ANY at a node with TXT + A + MX          (512, 1232)
@@ -102,7 +102,12 @@ pub fn build(w: usize) -> Built {
     // ---- txt ladders. Undecorated response = 12 + (10+4) + (2+10+R) = 38 + R
     // for owner "tNNNNN.z."; decorations add up to 11 (OPT) + 75 (TSIG k1.);
     // cname / any add up to 40 more.
-    for centre in [512usize, 1000, 1232, 4096, 65535] {
+    let mut txt_centres = vec![512usize, 1000, 1232, 4096, 65535];
+    if w > 4 {
+        // thorough tier: also the first offset a compression pointer cannot reach
+        txt_centres.insert(4, 16384);
+    }
+    for centre in txt_centres {
         let lo = centre - 38 - 86 - 40 - w;
         let hi = (centre - 38 + w + 1).min(65535);
         for r in lo..=hi {
@@ -491,8 +496,9 @@ pub fn run(ctx: Ctx) -> ! {
     ctx.set_extra("advertised_sizes", json!(advs));
     let mut missing = Vec::new();
     for lim in &limits {
-        // 65535 cannot be exceeded by a TCP response: only deltas <= 0 exist.
-        let want: u32 = if *lim == 65535 { 0b00111 } else { 0b11111 };
+        // A TCP response cannot exceed 65535 octets: deltas beyond that do
+        // not exist.
+        let want: u32 = (-2i64..=2).filter(|d| *lim as i64 + d <= 65535).map(|d| 1u32 << (d + 2)).sum();
         let have = cov.get(&("txt".to_string(), *lim)).copied().unwrap_or(0);
         if have & want != want {
             missing.push(*lim);
